@@ -27,11 +27,14 @@ PROGRAMS = {
     "uni": "grüße('Grüße, 世界').\nsay(X) :- grüße(X).\n".replace("grüße(", "gruss("),
     "nltrail": "msg('trail\n').\nshow(X) :- msg(X), other('a\n', 'b\r').\n",
     "cr": "msg('one\rimport os\rtwo').\nshow(X) :- msg(X).\n",
+    # redundant parentheses nested some hundred levels deep (no nesting of functors or goals: the documented
+    # limits are not involved)
+    "parens": "deep(X) :- X = %sa%s, ok(%sX%s).\nok(_).\n" % ("(" * 400, ")" * 400, "(" * 350, ")" * 350),
     "bad": "foo(a) :- ,.\n",
     "bad2": "ok(a).\nnot closed(\n",
     "noncallable": "cat(tom) :- 1.\n",
 }
-ABSTRACT = {"plain": ["plain", "uni"], "nl": ["nl", "cr", "nltrail"], "bad": ["bad", "bad2", "noncallable"]}
+ABSTRACT = {"plain": ["plain", "uni", "parens"], "nl": ["nl", "cr", "nltrail"], "bad": ["bad", "bad2", "noncallable"]}
 
 
 def lines_of(data):
@@ -52,7 +55,13 @@ def lib_output(names, scratch):
     return json.loads(p.stdout.decode("utf-8"))
 
 
-def run_cli(scratch, entry, flags, srcnames, use_o, stdin_index, tagid):
+def _limit_files():
+    import resource
+    soft, hard = resource.getrlimit(resource.RLIMIT_NOFILE)
+    resource.setrlimit(resource.RLIMIT_NOFILE, (min(1024, hard), hard))
+
+
+def run_cli(scratch, entry, flags, srcnames, use_o, stdin_index, tagid, many=False):
     cmd = ["/venv/bin/python", "-m", "yldprolog.compiler"] if entry == "module" else ["/venv/bin/yldpc"]
     for f in flags:
         cmd.append("-d" if f == "d" else "--" + f)
@@ -72,7 +81,8 @@ def run_cli(scratch, entry, flags, srcnames, use_o, stdin_index, tagid):
     env.pop("YLDPROLOG_VERIF", None)
     env.pop("PYTHONIOENCODING", None)
     env["LC_ALL"] = "C.UTF-8"
-    p = subprocess.run(cmd, cwd=scratch, env=env, input=stdin if stdin is not None else b"", capture_output=True, timeout=300)
+    p = subprocess.run(cmd, cwd=scratch, env=env, input=stdin if stdin is not None else b"", capture_output=True, timeout=600,
+                       preexec_fn=_limit_files if many else None)
     out = p.stdout
     if use_o:
         out = open(outfile, "rb").read() if os.path.exists(outfile) else b""
@@ -113,9 +123,20 @@ def run(tier, seed):
                         for entry in (("module", "yldpc") if (tier == "thorough" or k % 5 == 0) else ("module",)):
                             k += 1
                             jobs.append((entry, flags, srcnames, use_o, stdin_index, k))
+        # one invocation with more sources than a process may hold open files (the usual limit of 1024)
+        NMANY = 1100
+        for i in range(NMANY):
+            with open(os.path.join(scratch, "m%04d.prolog" % i), "w", encoding="utf-8") as f:
+                f.write("tiny(a).\n")
+        libs.update({"m%04d" % i: lib_output(["m0000"], scratch)[0] for i in range(1)})
+        for i in range(1, NMANY):
+            libs["m%04d" % i] = libs["m0000"]
+        many_names = ["m%04d" % i for i in range(NMANY)]
+        jobs.append(("module", [], many_names, False, -1, k + 1))
+        jobs.append(("module", [], many_names, True, 3, k + 2))
         recs = []
         with concurrent.futures.ThreadPoolExecutor(16) as ex:
-            futs = [(j, ex.submit(run_cli, scratch, j[0], j[1], j[2], j[3], j[4], j[5])) for j in jobs]
+            futs = [(j, ex.submit(run_cli, scratch, j[0], j[1], j[2], j[3], j[4], j[5], len(j[2]) > 100)) for j in jobs]
             for j, fu in futs:
                 entry, flags, srcnames, use_o, stdin_index, _ = j
                 rc, out, err = fu.result()
@@ -130,7 +151,8 @@ def run(tier, seed):
                 crashed = "Traceback (most recent call last)" in err
                 recs.append({"flags": flags, "allok": allok, "exit": rc, "out": lines_of(out), "lib": lines_of(lib), "syntaxerr": bool(syntaxerr),
                              "errinfo": errinfo, "crashed": crashed,
-                             "_cfg": {"entry": entry, "flags": flags, "sources": srcnames, "output": "-o" if use_o else "stdout", "stdin_index": stdin_index},
+                             "_cfg": {"entry": entry, "flags": flags, "sources": srcnames if len(srcnames) < 20 else ["%d sources %s..%s" % (len(srcnames), srcnames[0], srcnames[-1])],
+                                      "output": "-o" if use_o else "stdout", "stdin_index": stdin_index},
                              "_err": err[-300:]})
     finally:
         shutil.rmtree(scratch, ignore_errors=True)
